@@ -173,6 +173,9 @@ def run_xplore(cfg, prop, tier, extra=None, timeout=None):
     if r.returncode != 0 or not os.path.exists(out):
         if r.returncode == 2:
             die(f"xplore {prop} {cfg.label}: {r.stderr[-2000:]}")
+        if r.returncode in (-9, 137):
+            # SIGKILL is never raised by the code under test: the explorer was killed from outside (memory limit)
+            die(f"xplore {prop} {cfg.label} was killed (SIGKILL: out of memory / external kill) - engine failure, not a verdict")
         return None, f"exit status {r.returncode}\n{r.stderr[-4000:]}"
     res = json.load(open(out))
     os.remove(out)
